@@ -44,10 +44,11 @@ def _is_mutable_expr(e: ast.AST) -> bool:
 PASSTHROUGH_PREFIXES: Tuple[str, ...] = ()   # set by the tier-G audit: calls that may return their argument (as-is dumpers)
 
 
-def tainted_names(fn: ast.FunctionDef, seeds: Set[str]) -> Set[str]:
+def tainted_names(fn: ast.FunctionDef, seeds: Set[str], holder_seeds: Optional[Set[str]] = None) -> Set[str]:
     """argument, its aliases, things iterated / subscripted / unpacked out of it (all reachable from the argument)"""
     t = set(seeds)
-    holders: Set[str] = set()     # local containers filled with references to tainted objects (elements are tainted)
+    # local containers filled with references to tainted objects (elements are tainted)
+    holders: Set[str] = set(holder_seeds or ())
     changed = True
     while changed:
         changed = False
@@ -141,6 +142,45 @@ def mutation_findings(m: ModuleInfo, fn: ast.FunctionDef, qual: str, role: str, 
     return n
 
 
+def helper_mutations(repo: Repo, m: ModuleInfo, fn: ast.FunctionDef, modes: Dict[str, str], depth: int = 0,
+                     _seen: Optional[Set[Tuple[int, Tuple]]] = None) -> List[Tuple[ast.AST, str, str]]:
+    """In-place modifications a module-level helper performs on objects reachable from its arguments.
+    modes: parameter -> 'tainted' (the object itself belongs to the caller's datum) | 'holder' (a fresh container whose
+    ELEMENTS belong to the datum: filling it is fine, modifying what is taken out of it is not). Calls of repo functions
+    with a tainted argument are followed (depth 3). Returns (node, description, function name)."""
+    _seen = _seen if _seen is not None else set()
+    key = (id(fn), tuple(sorted(modes.items())))
+    if key in _seen or depth > 3:
+        return []
+    _seen.add(key)
+    seeds = {p for p, k in modes.items() if k == "tainted"}
+    holders = {p for p, k in modes.items() if k == "holder"}
+    t = tainted_names(fn, seeds, holders)
+    out: List[Tuple[ast.AST, str, str]] = []
+    for node in walk_no_nested(fn, include_root=False):
+        if isinstance(node, (ast.Assign, ast.AugAssign, ast.AnnAssign, ast.Delete)):
+            targets = node.targets if isinstance(node, (ast.Assign, ast.Delete)) else [node.target]
+            for tg in targets:
+                if isinstance(tg, (ast.Subscript, ast.Attribute)) and _derives_from(tg.value, t):
+                    out.append((node, f"store through `{norm(tg)}`", fn.name))
+        elif isinstance(node, ast.Call):
+            if isinstance(node.func, ast.Attribute) and node.func.attr in MUTATORS and _derives_from(node.func.value, t):
+                out.append((node, f"mutating call `{norm(node)[:60]}`", fn.name))
+            elif isinstance(node.func, (ast.Name, ast.Attribute)):
+                r = repo.resolve_expr_static(m, node.func)
+                if r.kind == "func" and r.node is not None and isinstance(r.node, ast.FunctionDef):
+                    ps = func_params(r.node)
+                    sub = {}
+                    for p, a in zip(ps, node.args):
+                        if _derives_from(a, t):
+                            sub[p] = "tainted"
+                        elif isinstance(a, ast.Name) and a.id in holders:
+                            sub[p] = "holder"
+                    if sub:
+                        out += helper_mutations(repo, r.module, r.node, sub, depth + 1, _seen)
+    return out
+
+
 def run(repo: Repo, tier: str, res: CheckResult, seed: int = 0) -> None:
     R = Resolver(repo)
     inv = Inventory(repo, R)
@@ -172,6 +212,7 @@ def run(repo: Repo, tier: str, res: CheckResult, seed: int = 0) -> None:
         freshness_findings(repo, R, m, fn, qual, role, res)
     res.count("PURE.closures", n_closures, 90)
     container_coercers(repo, res)
+    memoised_runtime_functions(repo, res)
     from .. import genprog
     genprog.c20_checks(repo, tier, res, seed)
     res.assumptions = list(ASSUMPTIONS)
@@ -301,3 +342,73 @@ def container_coercers(repo: Repo, res: CheckResult) -> None:
         res.add(Finding("C20", "FRESH.recipe-order", fr.rel, "FilledConversionRetort", " < ".join(order),
                         "a pass-through coercer provider precedes the iterable/dict coercer providers: equal-typed containers "
                         "of the source would be handed to the result instead of being rebuilt", ci.node.lineno))
+
+
+# ---------------------------------------------------------------------------------------------------------------------
+# hidden memo: a loader / dumper / coercer wrapped in functools.lru_cache / cache answers from what EARLIER calls stored.
+# The cache is keyed by == and hash, so True, 1 and 1.0 (Decimal('1.0') and Decimal('1.00'), ...) share an entry: the
+# result for a datum then depends on which look-alike was seen first -- and an accepted look-alike makes a datum pass
+# that a fresh retort rejects.
+
+MEMO_WRAPPERS = {"functools.lru_cache", "functools.cache", "functools._lru_cache_wrapper", "lru_cache", "cache"}
+
+
+def _memo_sites(tree: ast.AST, resolve) -> List[Tuple[ast.AST, ast.AST, str]]:
+    """(site, wrapped callable, how) for every application of a memoising wrapper"""
+    out = []
+
+    def is_wrapper(e: ast.AST) -> bool:
+        if isinstance(e, ast.Call):          # lru_cache(maxsize=...)
+            return is_wrapper(e.func)
+        return isinstance(e, (ast.Name, ast.Attribute)) and resolve(e) in MEMO_WRAPPERS
+    for node in ast.walk(tree):
+        if isinstance(node, (ast.FunctionDef, ast.AsyncFunctionDef)):
+            for d in node.decorator_list:
+                if is_wrapper(d):
+                    out.append((node, node, "decorator"))
+        elif isinstance(node, ast.Call) and node.args and is_wrapper(node.func) and not node.keywords:
+            # lru_cache(maxsize=8)(f)  or  cache(f)  -- but not the configuration call lru_cache(128)
+            a = node.args[0]
+            if isinstance(node.func, ast.Call) or not isinstance(a, ast.Constant):
+                out.append((node, a, "call"))
+    return out
+
+
+def memoised_runtime_functions(repo: Repo, res: CheckResult) -> None:
+    n = 0
+    for m in repo.modules.values():
+        if "/morphing/" not in m.rel and "/conversion/" not in m.rel:
+            continue
+
+        def resolve(e, m=m):
+            r = repo.resolve_expr_static(m, e)
+            return r.name if r.kind == "ext" else None
+        for site, wrapped, how in _memo_sites(m.tree, resolve):
+            enc = m.enclosing_function(site)
+            runtime = False
+            if isinstance(wrapped, (ast.FunctionDef, ast.Lambda)):
+                runtime = enc is not None      # a closure built by a provider
+                if enc is None and isinstance(wrapped, ast.FunctionDef):
+                    ps = func_params(wrapped)
+                    runtime = bool(ps) and ps[0] in ("data", "value", "obj")
+            elif isinstance(wrapped, (ast.Name, ast.Attribute)):
+                r = repo.resolve_expr_static(m, wrapped)
+                runtime = enc is not None and r.kind not in ("func", "class", "ext")   # a parameter / free variable, not a module helper
+            n += 1
+            res.evaluated(f"memo:{m.rel}:{getattr(site, 'lineno', 0)}", True)
+            if runtime:
+                res.add(Finding("C20", "MEMO.runtime-function-memoised", m.rel, m.qualname(enc) if enc is not None else "<module>",
+                                norm(site)[:100] if how == "call" else f"@memo def {wrapped.name}",
+                                f"`{norm(site)[:80]}` puts a memo in front of a function that processes user data: the cache is "
+                                "keyed by == / hash, so look-alike data (True / 1 / 1.0, Decimal('1.0') / Decimal('1.00')) get the "
+                                "answer stored for whichever came first -- results (and acceptance) depend on the call history",
+                                getattr(site, "lineno", 0)))
+    res.count("MEMO.wrapper-sites", n, 0)
+    # zero-expected rule: keep a positive fixture alive
+    fx = ast.parse("from functools import lru_cache\n"
+                   "class P:\n    def _make_loader(self, key_loader):\n        key_loader = lru_cache(maxsize=512)(key_loader)\n"
+                   "        def f(data):\n            return key_loader(data)\n        return f\n")
+    got = _memo_sites(fx, lambda e: "functools.lru_cache" if norm(e) == "lru_cache" else None)
+    if len(got) != 1 or norm(got[0][1]) != "key_loader":
+        raise AnalysisError("MEMO rule fixture no longer matches")
+    res.evaluated("memo:fixture", True)
